@@ -90,6 +90,9 @@ def pid_running(pid):
         return False
 
 
+PROGRESS = {"stage": None}  # where a scenario body currently is (appended to the scenario name of a timeout)
+
+
 def guarded(body, timeout, scenario="?"):
     """
     Runs ``body()`` (-> result dict) in a daemon thread. A body that does not come back within ``timeout``
@@ -106,13 +109,24 @@ def guarded(body, timeout, scenario="?"):
                         "expected": "no exception",
                         "observed": "%s: %s | %s" % (type(e).__name__, e, traceback.format_exc(limit=6)[-1500:])}
 
+    PROGRESS["stage"] = None
+    PROGRESS.pop("verdict", None)
     th = threading.Thread(target=target, daemon=True, name="l2-case-body")
     th.start()
-    th.join(timeout)
+    deadline = time.time() + timeout
+    while th.is_alive() and time.time() < deadline:
+        th.join(0.2)
+        # a verdict that was fixed before the context exit is not kept waiting for more than 3 s of exit
+        if PROGRESS.get("stage") == "context-exit" and "verdict" in PROGRESS and \
+                time.time() - PROGRESS.get("exit_t", time.time()) > 3.0:
+            break
     if "r" in box:
         res = box["r"]
     else:
-        res = {"ok": False, "trivial": False, "scenario": scenario + "/timeout",
+        stage = PROGRESS.get("stage")
+        res = PROGRESS.pop("verdict", None) if stage == "context-exit" else None
+    if "r" not in box and res is None:
+        res = {"ok": False, "trivial": False, "scenario": scenario + "/timeout" + ("@" + stage if stage else ""),
                "expected": "terminates within %.0f s" % timeout, "observed": "timeout"}
         # let stuck library threads go so that the interpreter can exit
         for t in threading.enumerate():
@@ -217,11 +231,18 @@ def pool_lib():
     class Fn(P.FunctorWorker):
         """computes f_ref; optional sleep before the item with value ``slow_value``"""
 
-        def __init__(self, quota=math.inf, slow_value=None, slow_s=0.0, item_s=0.0):
+        def __init__(self, quota=math.inf, slow_value=None, slow_s=0.0, item_s=0.0, wid_delay=0.0):
             super().__init__(quota)
             self.slow_value = slow_value
             self.slow_s = slow_s
             self.item_s = item_s
+            self.wid_delay = wid_delay
+
+        def begin(self):
+            if self.wid_delay and self.replace_queue is not None:
+                # forced schedule: the retiring worker is descheduled between delivering its last result and
+                # posting its wid on the replace queue (wrapper installed in the worker process, no library edit)
+                self.replace_queue = _SlowPut(self.replace_queue, self.wid_delay)
 
         def __call__(self, x):
             if self.item_s:
@@ -230,11 +251,24 @@ def pool_lib():
                 time.sleep(self.slow_s)
             return f_ref(x)
 
+    class _SlowPut:
+        def __init__(self, q, delay):
+            self._q = q
+            self._delay = delay
+
+        def put(self, *a, **k):
+            time.sleep(self._delay)
+            return self._q.put(*a, **k)
+
+        def __getattr__(self, name):
+            return getattr(self._q, name)
+
     class Fac(P.FunctorWorkerFactory):
         """factory; from the ``slow_from``-th creation on, create() sleeps ``delay`` seconds first"""
 
         def __init__(self, quota=math.inf, delay=0.0, slow_from=None, slow_value=None, slow_s=0.0, quotas=None,
-                     item_s=0.0):
+                     item_s=0.0, wid_delay=0.0):
+            self.wid_delay = wid_delay
             self.quota = quota
             self.quotas = quotas  # quota of the k-th created worker (the last entry repeats), overrides quota
             self.delay = delay
@@ -252,7 +286,7 @@ def pool_lib():
             if self.quotas:
                 q = self.quotas[min(self.n, len(self.quotas)) - 1]
                 q = math.inf if q is None else q
-            return Fn(q, self.slow_value, self.slow_s, self.item_s)
+            return Fn(q, self.slow_value, self.slow_s, self.item_s, self.wid_delay)
 
     def delayed_feeder(delay):
         class Slow(P.FunctorPool.SendWorkThread):
@@ -333,7 +367,8 @@ def make_pool(cfg):
     """
     cfg: {"pool": "functor"|"factory", "workers": w, "wq": None|int|float, "rq": None|int, "quota": None|k,
           "slow_value": v, "slow_s": s, "item_s": s (every item), "factory_delay": d, "factory_slow_from": n,
-          "quotas": [quota of the k-th created worker, last repeats], "wait_ready": bool}
+          "quotas": [quota of the k-th created worker, last repeats], "wait_ready": bool,
+          "wid_delay": s (a retiring worker posts its wid s seconds late)}
     """
     import math
     L = pool_lib()
@@ -348,7 +383,7 @@ def make_pool(cfg):
               for _ in range(cfg["workers"])]
         return L.P.FunctorPool(ws, **kw)
     fac = L.Fac(quota, cfg.get("factory_delay", 0.0), cfg.get("factory_slow_from"), cfg.get("slow_value"),
-                cfg.get("slow_s", 0.0), cfg.get("quotas"), cfg.get("item_s", 0.0))
+                cfg.get("slow_s", 0.0), cfg.get("quotas"), cfg.get("item_s", 0.0), cfg.get("wid_delay", 0.0))
     return L.P.FactoryFunctorPool(cfg["workers"], fac, **kw)
 
 
@@ -377,7 +412,7 @@ def check_call(values, call, got):
     return None
 
 
-def pool_history_body(case, prefix, trivial_if_empty=True):
+def pool_history_body(case, prefix, trivial_if_empty=True, judge_exit=True):
     """
     Generic scenario of C01/C02/C03: one pool, a history of fully consumed calls.
 
@@ -385,6 +420,8 @@ def pool_history_body(case, prefix, trivial_if_empty=True):
            "pause_after"], ...}
     Checks per call: results (ordered: equality, unordered: permutation of chunks), no payload left on the results
     queue, nothing left on the work queue; at the end: the context is left and no worker is running.
+    judge_exit=False (C01): the verdict is fixed before the context is left; if leaving the context then hangs, the
+    watchdog returns that verdict with a note (termination of the exit is the business of C02).
     """
     import multiprocessing
     L = pool_lib()
@@ -394,13 +431,16 @@ def pool_history_body(case, prefix, trivial_if_empty=True):
         return {"ok": False, "trivial": False, "scenario": name + "/" + what, "expected": _short(expected),
                 "observed": _short(observed)}
 
+    PROGRESS["stage"] = "pool-construction"
     pool = make_pool(case["cfg"])
     t0 = time.time()
     timing = []
+    PROGRESS["stage"] = "context-enter"
     with pool:
         if case["cfg"].get("wait_ready"):
             pool.until_all_ready()
         for k, call in enumerate(case["calls"]):
+            PROGRESS["stage"] = "call%d" % k
             if call.get("feeder_delay"):
                 pool.SendWorkThread = L.delayed_feeder(call["feeder_delay"])
             elif "SendWorkThread" in pool.__dict__:
@@ -421,6 +461,16 @@ def pool_history_body(case, prefix, trivial_if_empty=True):
             if call.get("pause_after"):
                 time.sleep(call["pause_after"])
         procs = list(pool.procs)
+        n_items = sum(c["n"] for c in case["calls"])
+        if not judge_exit:
+            PROGRESS["verdict"] = {"ok": True, "trivial": trivial_if_empty and n_items == 0, "scenario": name,
+                                   "expected": None,
+                                   "observed": {"call_s": timing, "note": "leaving the pool context did not terminate "
+                                                                          "(not judged here, see C02)"}}
+        PROGRESS["exit_t"] = time.time()
+        PROGRESS["stage"] = "context-exit"
+    PROGRESS["stage"] = "after-exit"
+    PROGRESS.pop("verdict", None)
     alive = [p.pid for p in procs if p.is_alive()]
     workers_left = [p for p in multiprocessing.active_children() if isinstance(p, L.P.BaseFunctorWorker)]
     if alive or workers_left:
